@@ -8,6 +8,7 @@ enumerated input; TLC enumerates (XPathGrammarGen.tla):
   full   all token sequences over the full alphabet (54 spellings incl. names that
          collide with operator/function/axis/node-type names) to MaxFull tokens
   core   all sequences over a 21-token core alphabet to MaxCore tokens
+  tiny   all sequences over a 12-token alphabet to MaxTiny tokens (deeper nesting)
   mutant all single-token mutants of the minimal rendering of XPathSets ASTs
   lref   all sequences over the leafref alphabet + mutants of valid path-args
   chars  all character strings over 25 character classes to MaxChars characters
@@ -18,8 +19,8 @@ import json, os, re
 from vlib import Infra, log, read_ndjson
 
 TIERS = {
-    "quick": dict(MaxFull=2, MaxCore=4, MaxLref=4, MaxChars=3, MutFams="{14, 15}", NChunks=12, MutEvery=8),
-    "thorough": dict(MaxFull=3, MaxCore=5, MaxLref=5, MaxChars=4, MutFams="{11, 13, 14, 15, 17}", NChunks=12, MutEvery=2),
+    "quick": dict(MaxFull=2, MaxCore=4, MaxTiny=4, MaxLref=4, MaxChars=3, MutFams="{14, 15}", NChunks=12, MutEvery=8),
+    "thorough": dict(MaxFull=3, MaxCore=4, MaxTiny=6, MaxLref=5, MaxChars=4, MutFams="{11, 13, 14, 15, 17}", NChunks=12, MutEvery=2),
 }
 
 
@@ -51,7 +52,7 @@ def totality(ctx, tier):
 def run(ctx):
     ctx.build(["xp"])
     t = TIERS[ctx.tier]
-    files = generate(ctx, ["full", "core", "mutant", "lref", "chars"], t)
+    files = generate(ctx, ["full", "core", "tiny", "mutant", "lref", "chars"], t)
     out = ctx.path("gres.ndjson")
     r = ctx.run_bin("xp", ["gram", "-out", out] + files, timeout=2400)
     stats = json.loads(r.stdout.strip().splitlines()[-1])
